@@ -38,6 +38,17 @@ def _split_bytes(tree):
     return tries
 
 
+def _min_wrap_size(tree):
+    """byteTextWrap: `size = max(size, N)` before the loop"""
+    f = find_func(tree, 'byteTextWrap')
+    for n in f.body:
+        if isinstance(n, ast.Assign) and isinstance(n.targets[0], ast.Name) and n.targets[0].id == 'size' and \
+                isinstance(n.value, ast.Call) and isinstance(n.value.func, ast.Name) and n.value.func.id == 'max' and \
+                len(n.value.args) == 2 and isinstance(n.value.args[0], ast.Name) and n.value.args[0].id == 'size':
+            return _const(n.value.args[1], int, 'byteTextWrap minimum size')
+    raise ExtractionError('byteTextWrap: `size = max(size, N)` not found')
+
+
 def _ctx_size(tree):
     f = find_func(tree, 'size', cls='FormatContext')
     has = {}
@@ -212,6 +223,25 @@ def _callbacks(tree):
     join_t = [s for s in strs if s == '%s %s']
     if len(join_t) != 1:
         raise ExtractionError("reply: '%s %s' chunk/suffix template not found")
+    # every message of the chunked branch goes through `sendMsg` (one queue for the whole reply)
+    loops = [n for n in ast.walk(f) if isinstance(n, ast.While) and 'instant' in ast.dump(n.test)]
+    if len(loops) != 1:
+        raise ExtractionError('reply: `while instant > 1 and msgs` loop not found')
+    sends = [n for n in ast.walk(loops[0]) if isinstance(n, ast.Call) and
+             ((isinstance(n.func, ast.Name) and n.func.id in ('sendMsg',)) or
+              (isinstance(n.func, ast.Attribute) and n.func.attr in ('queueMsg', 'sendMsg')))]
+    if len(sends) != 1 or not isinstance(sends[0].func, ast.Name):
+        raise ExtractionError('reply: the instant loop must send through sendMsg(response)')
+    # the reply attributes, noLengthCheck included, are reset after every final reply
+    rs = find_func(tree, '_resetReplyAttributes', cls='NestedCommandsIrcProxy')
+    reset = sorted(t.attr for n in rs.body if isinstance(n, ast.Assign) and isinstance(n.value, ast.Constant)
+                   and n.value.value is None for t in n.targets if isinstance(t, ast.Attribute))
+    if reset != ['action', 'noLengthCheck', 'notice', 'private', 'to']:
+        raise ExtractionError('_resetReplyAttributes: expected to/action/notice/private/noLengthCheck = None, found %r' % (reset,))
+    fin = [n for n in ast.walk(f) if isinstance(n, ast.Try) and n.finalbody and
+           '_resetReplyAttributes' in ast.dump(n.finalbody[0])]
+    if len(fin) != 1:
+        raise ExtractionError('reply: `finally: self._resetReplyAttributes()` not found')
     g = find_func(tree, '_makeReply')
     gs = _strings(g)
     nick_t = [s for s in gs if s == '%s: %s']
@@ -342,6 +372,7 @@ def _locales(msgids):
 @extractor('Reply')
 def gen_reply():
     tries = _split_bytes(parse('src/utils/str.py'))
+    min_size = _min_wrap_size(parse('src/utils/str.py'))
     iu = parse('src/ircutils.py')
     with_bg, fg_only, end = _ctx_size(iu)
     start, reset = _ctx_start_end(iu)
@@ -374,6 +405,7 @@ def gen_reply():
     def st(name, v, doc):
         return '/-- %s -/\ndef %s : Py.Str := %s\n' % (doc, name, lstr(v))
     body += nat('splitBytesTries', tries, 'utils.str.splitBytes: `for i in range(N)`')
+    body += nat('minWrapSize', min_size, 'utils.str.byteTextWrap: `size = max(size, N)`')
     body += nat('sizeWithBg', with_bg, 'FormatContext.size: `if has_bg: prefix_size += N`')
     body += nat('sizeFgOnly', fg_only, 'FormatContext.size: `elif has_fg: prefix_size += N`')
     body += nat('sizeEnd', end, 'FormatContext.size: `return prefix_size + N`')
